@@ -28,6 +28,8 @@ def run(chk):
              "empty -> return; disjoint -> continue; pieces appended in results_ order inside the forward loop over the input paths")
     chk.rule("T.lines-dispatch", "crossing dispatch of RectClipLines64::ExecuteInternal on all (prev, loc) pairs: entering -> Add(ip, start new piece); "
              "leaving -> Add(ip); passing through -> first crossing (taken from the other end of the segment) starts a piece, then Add(ip)")
+    chk.rule("SCAN.start", "the segment scan of ExecuteInternal starts at segment 1 on every path (constant propagation of the cursor: the pre-scan for a "
+             "vertex off the boundary must not leave it advanced)")
     chk.rule("LOOP", "nothing written while clipping one polyline is read while clipping the next")
     chk.rule("CLEAN", "the scratch containers are empty again at every normal exit of RectClipLines64::Execute")
     for cfg in cfgs:
@@ -36,6 +38,7 @@ def run(chk):
         e3.rect_shortcuts(db, chk, cfg)
         e3.lines_shortcuts(db, chk, cfg)
         e3.lines_dispatch(db, chk, cfg)
+        e3.scan_start_rule(db, chk, cfg, "RectClipLines64::ExecuteInternal", 1)
         eng = e2.E2(db, chk, cfg, ["RectClip64", "RectClipLines64"])
         e2.check_classification(eng, RECT, chk, "RectClip64")
         f = db.one("RectClipLines64::Execute")
